@@ -16,7 +16,7 @@ use serde_json::{json, Value};
 use simcore::kproto::*;
 use simcore::{drop_chunks, Fnv, Outcome, Rng};
 
-use super::c16::{end_of_run_checks, num_shown_matches, parse_airplanes_tab, tab_bar_count, table_of, tables_match, Parsed, Row};
+use super::c16::{end_of_run_checks, num_shown_matches, parse_airplanes_tab, tab_bar_count, table_of, window_match, Parsed, Row};
 use super::pty::{run_child, Spec};
 use super::vt::{Frame as Screen, Vt};
 use super::{exe, parse_log, LogEv};
@@ -39,6 +39,9 @@ pub struct K18 {
     /// lines per segment) before anything else; frames are judged once the backlog is consumed
     #[serde(default)]
     pub bulk: usize,
+    /// more aircraft than fit on one page, packed closely: only data is judged, not label geometry
+    #[serde(default)]
+    pub many: bool,
     /// receiver position (--lat / --long); default (35, -80)
     #[serde(default = "default_rx")]
     pub rx: (f64, f64),
@@ -85,7 +88,10 @@ pub fn generate(rng: &mut Rng, fault_free: bool) -> K18 {
     }
     // aircraft in all four quadrants at distinct latitude offsets (labels on distinct rows)
     let slots: [(f64, f64); 6] = [(0.25, 0.3), (-0.25, -0.3), (0.75, -0.9), (-0.75, 0.9), (1.3, 0.6), (-1.3, -0.6)];
-    let nac = 1 + rng.usize_below(6);
+    // "many" mode: more aircraft than fit on one page of the Airplanes tab (scrolling table); the
+    // map is then too crowded for label geometry and only data is judged
+    let many = !fault_free && rng.chance(0.03);
+    let nac = if many { 0 } else { 1 + rng.usize_below(6) };
     let deep = simcore::deep() && rng.chance(0.33);
     let dur_a: u64 = 2_000_000 + rng.below(if deep { 20_000_000 } else { 6_000_000 });
     let mut lines: Vec<(u64, String)> = vec![];
@@ -118,12 +124,31 @@ pub fn generate(rng: &mut Rng, fault_free: bool) -> K18 {
         }
     }
     let bulk = if !fault_free && rng.chance(0.006) { 10_000 + rng.usize_below(400) } else { 0 };
-    let filter_time = if bulk > 0 { 1_000_000 } else { filter_time };
+    let filter_time = if bulk > 0 || many { 1_000_000 } else { filter_time };
     if bulk > 0 {
         // the backlog needs one main-loop iteration (>= 10 ms) per line
         let shift = bulk as u64 * 10_500 + 2_000_000;
         for l in lines.iter_mut() {
             l.0 += shift;
+        }
+    }
+    if many {
+        let n = rows as usize - 9 + rng.usize_below(12);
+        let mut t = 100_000u64;
+        for a in 0..n {
+            let addr = [0x48, (a >> 8) as u8, a as u8];
+            let lat = rx.0 + 0.05 + 0.01 * a as f64;
+            for k in 0..3 {
+                let me = match k {
+                    0 => wire::me_identification(4, 0, &format!("TST{a:03}")),
+                    _ => {
+                        let (yz, xz) = wire::cpr_encode(lat, rx.1 + 0.1, k == 2);
+                        wire::me_airborne_position(11, 0, 0, wire::ac12_q(10_000 + 25 * a as i32), false, k == 2, yz, xz)
+                    }
+                };
+                lines.push((t, wire::hex(&wire::df17(5, addr, me))));
+                t += 125_000;
+            }
         }
     }
     lines.sort();
@@ -174,6 +199,17 @@ pub fn generate(rng: &mut Rng, fault_free: bool) -> K18 {
         *t += gap;
     };
     push(&mut events_b, &mut t, key("F1"), 250_000);
+    if many {
+        // walk the selection down past the end of the first page, one key per draw
+        push(&mut events_b, &mut t, key("F3"), 150_000);
+        for _ in 0..rows as usize - 9 + 6 {
+            push(&mut events_b, &mut t, key("Down"), 80_000);
+        }
+        for _ in 0..rng.below(12) {
+            push(&mut events_b, &mut t, key("Up"), 80_000);
+        }
+        push(&mut events_b, &mut t, key("F1"), 150_000);
+    }
     let nctl = if fault_free { 2 } else { 1 + rng.usize_below(if deep { 40 } else { 12 }) };
     if !fault_free && rng.chance(0.4) {
         // centre the map on an aircraft from the Airplanes tab
@@ -214,7 +250,7 @@ pub fn generate(rng: &mut Rng, fault_free: bool) -> K18 {
     push(&mut events_b, &mut t, key("F4"), 250_000);
     push(&mut events_b, &mut t, key("F1"), 250_000);
     push(&mut events_b, &mut t, key("c:q"), 0);
-    K18 { cols, rows, filter_time, locations, flags, lines, events_a, events_b, bulk, rx }
+    K18 { cols, rows, filter_time, locations, flags, lines, events_a, events_b, bulk, many, rx }
 }
 
 fn end_a(sc: &K18) -> u64 {
@@ -547,7 +583,10 @@ pub fn execute(sc: &K18) -> Outcome {
             if rows.iter().any(|x| x.lat.is_empty()) {
                 out.probe("details_blank");
             }
-            if !tables_match(&rows, &r.table) {
+            if rows.len() < r.table.len() {
+                out.probe("table_longer_than_one_page");
+            }
+            if !window_match(&rows, &r.table, selected) {
                 let sig = if in_phase_a { "C18:airplanes-rows-differ-from-tracker" } else { "C18:view-controls-changed-the-data" };
                 out.violate(sig, format!("frame {} (t={}us): Airplanes tab rows differ from the tracker's data\nshown:\n{}\ntracker:\n{}", s.k, s.vt_us, dump(&rows), dump(&r.table)));
                 return out;
@@ -590,12 +629,12 @@ pub fn execute(sc: &K18) -> Outcome {
                 return out;
             }
         } else if let Some(rect) = block_rect(s, "Map") {
-            if view_is_default {
+            if view_is_default && !sc.many {
                 check_map(sc, s, rect, r, toggle_at_frame[&s.k], &mut out);
                 if out.violation.is_some() {
                     return out;
                 }
-            } else if let Some((icao, zoom)) = &centred_at_frame[&s.k] {
+            } else if let (Some((icao, zoom)), false) = (&centred_at_frame[&s.k], sc.many) {
                 // centred on an aircraft and not zoomed out since: it is in the middle of the map,
                 // whatever the zoom level
                 let (dis_latlon, dis_callsign, dis_icao) = toggle_at_frame[&s.k];
